@@ -63,6 +63,12 @@ func init() {
 		// base64 of a byte string: injective opaque term of the bytes (concrete length)
 		"(*encoding/base64.Encoding).EncodeToString": func(e *Engine, c *callCtx) bool {
 			b := c.args[1].(SliceV)
+			if b.obj != 0 {
+				if ao, ok := c.st.obj(b.obj).arr.(AOpaque); ok {
+					c.set(StrV{k: strOpaque, tag: "b64(" + ao.s.tag + ")", t: ao.s.t})
+					return true
+				}
+			}
 			n := e.mustConst(b.ln, "base64 input length")
 			if n == 0 {
 				c.set(StrV{k: strLit})
@@ -133,9 +139,45 @@ func init() {
 		"(*net.TCPAddr).String":  stubAddrString,
 		"(*net.UDPAddr).Network": stubLit("udp"),
 		"(*net.TCPAddr).Network": stubLit("tcp"),
-		"net.JoinHostPort":       stubOpaqueString("hostport"),
-		"strconv.Itoa":           stubItoa,
-		"strconv.FormatInt":      stubItoa,
+		"net.JoinHostPort": func(e *Engine, c *callCtx) bool {
+			// structured: host ":" port, so that SplitHostPort can invert it
+			h, p := c.args[0].(StrV), c.args[1].(StrV)
+			c.set(StrV{k: strOpaque, tag: "hostport", t: e.freshOpaqueStr("hp").t, parts: []StrV{h, p}})
+			return true
+		},
+		"net.SplitHostPort": func(e *Engine, c *callCtx) bool {
+			s := c.args[0].(StrV)
+			if s.k == strOpaque && s.tag == "hostport" && len(s.parts) == 2 {
+				c.set(TupleV{s.parts[0], s.parts[1], IfaceV{}})
+				return true
+			}
+			panic(hardErr("net.SplitHostPort of a string not built by JoinHostPort"))
+		},
+		"strconv.Atoi": func(e *Engine, c *callCtx) bool {
+			s := c.args[0].(StrV)
+			if s.k == strOpaque && s.tag == "itoa" {
+				c.set(TupleV{IntV{s.t, 64, true}, IfaceV{}})
+				return true
+			}
+			if s.k == strLit {
+				var v int64
+				if _, err := fmt.Sscanf(s.lit, "%d", &v); err == nil && fmt.Sprint(v) == s.lit {
+					c.set(TupleV{e.goInt(v), IfaceV{}})
+					return true
+				}
+			}
+			if s.k == strOpaque && s.tag == "sym" {
+				// an arbitrary opaque string is not a number (harnesses use Itoa-built strings for numbers)
+				eo := e.newObj(c.st, &Object{kind: kStruct, typ: e.wrapErrType(), fields: []Value{e.freshOpaqueStr("errstr")}})
+				c.set(TupleV{e.goInt(0), IfaceV{typ: e.wrapErrType(), val: PtrV{eo, -1}}})
+				return true
+			}
+			panic(hardErr("strconv.Atoi of a string not built by Itoa"))
+		},
+		"context.TODO":       func(e *Engine, c *callCtx) bool { c.set(IfaceV{}); return true },
+		"context.Background": func(e *Engine, c *callCtx) bool { c.set(IfaceV{}); return true },
+		"strconv.Itoa":       stubItoa,
+		"strconv.FormatInt":  stubItoa,
 		// ----- randomness -----
 		"github.com/pion/randutil.CryptoUint64": func(e *Engine, c *callCtx) bool {
 			v := e.freshInt(c.st, "rnd", 64, false)
@@ -716,6 +758,16 @@ func (e *Engine) sliceBound(s SliceV) (int, bool) {
 // bytesEq: len(a)==len(b) && all bytes equal (needs a static bound on one length).
 func (e *Engine) bytesEq(st *State, a, b SliceV) Term {
 	tb := e.tb
+	if a.obj != 0 && b.obj != 0 {
+		ao, aok := st.obj(a.obj).arr.(AOpaque)
+		bo, bok := st.obj(b.obj).arr.(AOpaque)
+		if aok && bok {
+			return e.strEq(ao.s, bo.s)
+		}
+		if aok || bok {
+			panic(hardErr("comparison of opaque bytes with ordinary bytes"))
+		}
+	}
 	r := tb.Eq(a.ln, b.ln)
 	if r.isFalse() {
 		return r
